@@ -136,6 +136,13 @@ def fnmatch (pat name : Str) : Bool :=
   | '.' :: _, _ => false
   | _, _ => fnm pat name
 
+/-- backslash-escape of every character `glob(3)` (with `GLOB_BRACE`) gives a meaning to: what `Ruleset::
+registerRunnableRulesetForCgroupPath` does to a cgroup's path before handing it to a plugin as its `cgroup` pattern -/
+def escChar (c : Char) : Str :=
+  if c == '\\' || c == '*' || c == '?' || c == '[' || c == '{' then ['\\', c] else [c]
+
+def globEscape (s : Str) : Str := s.flatMap escChar
+
 def hasMeta (pat : Str) : Bool := pat.any (fun c => c == '*' || c == '?' || c == '[' || c == '\\')
 
 /-! ## A directory tree and the glob walk
